@@ -307,6 +307,30 @@ func innerBlocks(inner string, M int, rng *rand.Rand) [][]uint16 {
 			bl[i] = runsOf(lo, sizes[i], 8, 8)
 			lo += sizes[i] * 16
 		}
+	case "longruns":
+		// long runs (70 values) separated by short gaps (5): a run ends and the next one
+		// starts inside the same 64-bit word, runs straddle word boundaries, few enough
+		// runs (<= 800) that the optimized container is run-encoded, more than 4096 values
+		per := make([]int, M)
+		switch M {
+		case 1:
+			per[0] = 800
+		case 2:
+			per[0], per[1] = 500, 300
+		case 3:
+			per[0], per[1], per[2] = 400, 300, 100
+		default:
+			per[0], per[1] = 400, 200
+			rest := 200
+			for i := 2; i < M; i++ {
+				per[i] = rest / (M - 2)
+			}
+		}
+		lo := rng.Intn(3)
+		for i := 0; i < M; i++ {
+			bl[i] = runsOf(lo, per[i], 70, 5)
+			lo += per[i] * 75
+		}
 	case "full":
 		// blocks partition the container: the union of all is a full container
 		width := 65536 / M
@@ -331,7 +355,7 @@ func Make(inner, keyset string, K, M int, seed int64) *Profile {
 		Inner: inner, KeySet: keyset, Seed: seed}
 	p.Keys = keysFor(keyset, K, rng)
 	p.Blocks = make([][]uint64, K*M)
-	shapes := []string{"edge", "array", "thresh", "comb", "runs", "runthresh", "full"}
+	shapes := []string{"edge", "array", "thresh", "comb", "runs", "runthresh", "longruns", "full"}
 	for k := 0; k < K; k++ {
 		in := inner
 		if inner == "mixed" {
